@@ -2,6 +2,7 @@ pub mod c01;
 pub mod c05race;
 pub mod c04;
 pub mod c06;
+pub mod c07;
 pub mod c09;
 pub mod c10;
 pub mod c12;
@@ -42,6 +43,7 @@ pub fn by_id(id: &str) -> Option<Box<dyn Check>> {
         "C16" => Some(Box::new(c16::C16)),
         "C04" => Some(Box::new(c04::C04)),
         "C06" => Some(Box::new(c06::C06)),
+        "C07" => Some(Box::new(c07::C07)),
         "C10" => Some(Box::new(c10::C10)),
         "C11" => Some(Box::new(histchecks::HistCheck { prop: "C11" })),
         "C08" => Some(Box::new(histchecks::HistCheck { prop: "C08" })),
